@@ -732,6 +732,69 @@ func c18(r *core.Run) {
 		})
 	}
 
+	r.Check("D2/K8/results-from-the-shared-call/flightGroup", "every caller of one flight receives that flight's result: in Do/DoEx each returned value of interface type and each returned error is a load of the corresponding field (by type: the interface-typed and the error-typed field) of the call object the creator handed back, on the sharing path as well as after the own execution", func(o *core.O) {
+		tf := "flightGroup.calls"
+		fns := c18GroupFns(p, inPkg, "flightGroup")
+		creators := map[*ssa.Function]bool{}
+		for _, f := range fns {
+			res := f.Signature.Results()
+			if len(core.Instrs(f, core.IsMapUpdateOn(tf))) > 0 && len(core.Instrs(f, c18UserFnCall)) == 0 && res.Len() == 2 {
+				if b, ok := res.At(1).Type().Underlying().(*types.Basic); ok && b.Kind() == types.Bool {
+					creators[f] = true
+				}
+			}
+		}
+		if !o.Need(len(creators) == 1, "the creator (lookup-or-insert returning (call, done)) of flightGroup") {
+			return
+		}
+		isCreate := c18StaticCallTo(creators)
+		isErrT := func(t types.Type) bool { return t.String() == "error" }
+		isAnyT := func(t types.Type) bool {
+			it, ok := t.Underlying().(*types.Interface)
+			return ok && it.NumMethods() == 0
+		}
+		n := 0
+		for _, f := range fns {
+			if creators[f] || f.Parent() != nil || len(core.Instrs(f, isCreate)) == 0 {
+				continue
+			}
+			r.Fn(core.FuncName(f))
+			res := f.Signature.Results()
+			for i := 0; i < res.Len(); i++ {
+				rt := res.At(i).Type()
+				if !isErrT(rt) && !isAnyT(rt) {
+					continue
+				}
+				sites, ok := c18RetSites(f, i)
+				if !ok {
+					o.Unres("%s: shape of result #%d not understood", core.FuncName(f), i)
+					continue
+				}
+				for _, s := range sites {
+					n++
+					good := false
+					if u, isLoad := core.Forward(s.val).(*ssa.UnOp); isLoad && u.Op == token.MUL {
+						if fa, isFA := u.X.(*ssa.FieldAddr); isFA && core.IsResult(core.Forward(fa.X), 0, isCreate) {
+							ft := u.Type()
+							good = (isErrT(rt) && isErrT(ft)) || (isAnyT(rt) && !isErrT(ft) && isAnyT(ft))
+						}
+					}
+					if !good {
+						what := "value"
+						if isErrT(rt) {
+							what = "error"
+						}
+						o.Fail(p.InstrPos(s.in), "%s returns %s as its %s instead of the shared call's own %s field: callers sharing a flight do not receive the result of the one execution (a follower of a failed flight sees no error)", core.FuncName(f), core.Describe(s.val), what, what)
+					}
+				}
+			}
+		}
+		o.Site(n)
+		if n == 0 {
+			o.Unres("no function of flightGroup returning the results of a created call found")
+		}
+	})
+
 	r.Check("D2/K2/only-creator-executes/flightGroup", "createCall reports done=true exactly on the found outcome; Do/DoEx run the user function only when done is false, and DoEx reports fresh=false for a shared result and fresh=true for its own execution", func(o *core.O) {
 		tf := "flightGroup.calls"
 		fns := c18GroupFns(p, inPkg, "flightGroup")
